@@ -3,7 +3,7 @@
 From Coq Require Import ZArith List Bool Zdiv.
 From Bignums Require Import BigZ.
 From GmVerif Require Import Ec.Num Ec.CurveSpec Ec.Z256 Ec.Z256Proofs Ec.Mont Ec.MontProofs
-  Ec.Jacobian Ec.JacobianProofs Ec.Booth Ec.BoothProofs Ec.ScalarMul Ec.ScalarMulProofs Ec.ScalarMulGenProofs.
+  Ec.Jacobian Ec.JacobianProofs Ec.Booth Ec.BoothProofs Ec.ScalarMul Ec.ScalarMulProofs Ec.ScalarMulGenProofs Ec.MontBigProofs.
 Import ListNotations.
 Local Open Scope Z_scope.
 
@@ -344,6 +344,40 @@ Theorem C13_spec_chord_is_padd : forall p a x1 y1 x2 y2, x1 <> x2 ->
 Proof. exact padd_unfold. Qed.
 Print Assumptions C13_spec_chord_is_padd.
 
+(* the real point code against CurveSpec: whenever the affine law yields (x3, y3) -- and its
+   Euclid inverse is an inverse of the denominator, which holds for prime p -- the Jacobian code
+   returns a representative of (x3, y3): X3 = x3 Z3^2, Y3 = y3 Z3^3 (mod p), coordinates reduced *)
+Theorem C13_point_dbl_represents_pdbl_partial : forall X1 Y1 Z1 x y x3 y3,
+  jrepr c_p Z okp decp (X1, Y1, Z1) x y ->
+  pdbl ZOps c_p sm2_a (Some (x, y)) = Some (x3, y3) ->
+  eqm c_p (finv ZOps c_p ((y + y) mod c_p) * (2 * y)) 1 ->
+  jrepr c_p Z okp decp (point_dbl Z FpZ (X1, Y1, Z1)) x3 y3.
+Proof. exact point_dbl_represents_pdbl_partial. Qed.
+Print Assumptions C13_point_dbl_represents_pdbl_partial.
+
+Theorem C13_point_add_represents_padd_partial : forall X1 Y1 Z1 X2 Y2 Z2 x1 y1 x2 y2 x3 y3,
+  jrepr c_p Z okp decp (X1, Y1, Z1) x1 y1 -> jrepr c_p Z okp decp (X2, Y2, Z2) x2 y2 ->
+  f_eqb FpZ Z1 (f_zero FpZ) = false -> f_eqb FpZ Z2 (f_zero FpZ) = false ->
+  f_eqb FpZ (f_mul FpZ X1 (f_sqr FpZ Z2)) (f_mul FpZ X2 (f_sqr FpZ Z1)) = false ->
+  x1 <> x2 ->
+  padd ZOps c_p sm2_a (Some (x1, y1)) (Some (x2, y2)) = Some (x3, y3) ->
+  eqm c_p (finv ZOps c_p ((x2 - x1) mod c_p) * (x2 - x1)) 1 ->
+  jrepr c_p Z okp decp (point_add Z FpZ (X1, Y1, Z1) (X2, Y2, Z2)) x3 y3.
+Proof. exact point_add_represents_padd_partial. Qed.
+Print Assumptions C13_point_add_represents_padd_partial.
+
+Theorem C13_point_add_affine_represents_padd_partial : forall X1 Y1 Z1 xm ym x1 y1 x3 y3,
+  jrepr c_p Z okp decp (X1, Y1, Z1) x1 y1 -> okp xm -> okp ym ->
+  f_eqb FpZ Z1 (f_zero FpZ) = false ->
+  f_eqb FpZ xm (f_zero FpZ) && f_eqb FpZ ym (f_zero FpZ) = false ->
+  f_eqb FpZ (f_sub FpZ (f_mul FpZ xm (f_sqr FpZ Z1)) X1) (f_zero FpZ) = false ->
+  x1 <> decp xm ->
+  padd ZOps c_p sm2_a (Some (x1, y1)) (Some (decp xm, decp ym)) = Some (x3, y3) ->
+  eqm c_p (finv ZOps c_p ((decp xm - x1) mod c_p) * (decp xm - x1)) 1 ->
+  jrepr c_p Z okp decp (point_add_affine Z FpZ (X1, Y1, Z1) (xm, ym)) x3 y3.
+Proof. exact point_add_affine_represents_padd_partial. Qed.
+Print Assumptions C13_point_add_affine_represents_padd_partial.
+
 (* infinity / equal-x control flow of the full addition and of the mixed addition *)
 Theorem C13_point_add_infinity_left : forall F (fo : fops F) a X2 Y2 Z2 X1 Y1 Z1, a = (X1, Y1, Z1) ->
   f_eqb fo Z1 (f_zero fo) = true -> f_eqb fo Z2 (f_zero fo) = false ->
@@ -426,14 +460,46 @@ Theorem C13_mul_generator_correct_partial :
   (forall R e, okR R -> oke e -> okR (addaff R e) /\ den (addaff R e) = madd (den R) (dena e)) ->
   (forall e, oke e -> oke (fst e, f_neg fo (snd e)) /\ dena (fst e, f_neg fo (snd e)) = mneg (dena e)) ->
   (forall e, oke e -> okR (point_copy_affine F fo e) /\ den (point_copy_affine F fo e) = dena e) ->
-  den (point_infinity F fo) = smul 0 ->
+  okR (point_infinity F fo) /\ den (point_infinity F fo) = smul 0 ->
   forall tab : list (list (apoint F)),
   length tab = 37%nat ->
   (forall i, (i < 37)%nat -> row_ok F fo M smul oke dena (nth i tab []) (2^(7 * Z.of_nat i))) ->
   forall k, 0 <= k < 2^256 ->
-  exists R, point_mul_generator F fo addaff tab k = Some R /\ den R = smul k.
+  exists R, point_mul_generator F fo addaff tab k = Some R /\ okR R /\ den R = smul k.
 Proof. exact mul_generator_correct_partial. Qed.
 Print Assumptions C13_mul_generator_correct_partial.
+
+(* sm2_z256_point_mul: [k]P for EVERY 256-bit k under the same kind of premises; covers both
+   branches of the table construction [1..16]P, the top-window handling, the five doublings per
+   window and the signed digits *)
+Theorem C13_point_mul_correct_partial :
+  forall (F : Type) (fo : fops F) (addaff : jpoint F -> apoint F -> jpoint F)
+         (M : Type) (madd : M -> M -> M) (mneg : M -> M) (smul : Z -> M)
+         (okR : jpoint F -> Prop) (den : jpoint F -> M),
+  (forall a b, smul (a + b) = madd (smul a) (smul b)) ->
+  (forall a, smul (- a) = mneg (smul a)) ->
+  (forall R, okR R -> okR (point_dbl F fo R) /\ den (point_dbl F fo R) = madd (den R) (den R)) ->
+  (forall R Q, okR R -> okR Q -> okR (point_add F fo R Q) /\ den (point_add F fo R Q) = madd (den R) (den Q)) ->
+  (forall Q, okR Q -> okR (point_neg F fo Q) /\ den (point_neg F fo Q) = mneg (den Q)) ->
+  okR (point_zero F fo) /\ den (point_zero F fo) = smul 0 ->
+  forall X Y Zc : F,
+  okR (X, Y, Zc) -> den (X, Y, Zc) = smul 1 ->
+  (forall R, okR R -> okR (addaff R (X, Y)) /\ den (addaff R (X, Y)) = madd (den R) (smul 1)) ->
+  forall k, 0 <= k < 2^256 ->
+  exists R, point_mul F fo addaff k (X, Y, Zc) = Some R /\ okR R /\ den R = smul k.
+Proof. exact point_mul_correct_partial. Qed.
+Print Assumptions C13_point_mul_correct_partial.
+
+Theorem C13_point_mul_sum_correct_partial :
+  forall (F : Type) (fo : fops F) (addaff : jpoint F -> apoint F -> jpoint F) (tab : list (list (apoint F)))
+         (M : Type) (madd : M -> M -> M) (okR : jpoint F -> Prop) (den : jpoint F -> M) (gs pt : M)
+         (t : Z) (P : jpoint F) (s : Z),
+  (forall R Q, okR R -> okR Q -> okR (point_add F fo R Q) /\ den (point_add F fo R Q) = madd (den R) (den Q)) ->
+  (exists R, point_mul_generator F fo addaff tab s = Some R /\ okR R /\ den R = gs) ->
+  (exists Q, point_mul F fo addaff t P = Some Q /\ okR Q /\ den Q = pt) ->
+  exists R, point_mul_sum F fo addaff tab t P s = Some R /\ okR R /\ den R = madd gs pt.
+Proof. exact point_mul_sum_correct_partial. Qed.
+Print Assumptions C13_point_mul_sum_correct_partial.
 
 (* in particular the model never indexes the table out of bounds *)
 Theorem C13_mul_generator_total : forall k, 0 <= k < 2^256 -> exists R, mulgen k = Some R.
@@ -446,3 +512,42 @@ Theorem C13_mul_generator_old_refuted :
     option_map decodeZ (mulgen_old k) <> Some (point_toZ BigOps (sm2_mulG BigOps k)).
 Proof. exact mul_generator_old_refuted. Qed.
 Print Assumptions C13_mul_generator_old_refuted.
+
+(* ---- the BigZ instance of the model (the one the correspondence run executes) computes the
+   same numbers as the Z instance (the one the theorems above are about) ---- *)
+Theorem C13_big_mont_mul_hom : forall a b,
+  BigZ.to_Z (vmont_mul BigOps BigZ.ltb KpB a b) = vmont_mul ZOps Z.ltb KpZ (BigZ.to_Z a) (BigZ.to_Z b) /\
+  BigZ.to_Z (vmont_mul BigOps BigZ.ltb KnB a b) = vmont_mul ZOps Z.ltb KnZ (BigZ.to_Z a) (BigZ.to_Z b).
+Proof. exact (fun a b => conj (vmont_mul_hom KpB KpZ KpB_hom a b) (vmont_mul_hom KnB KnZ KnB_hom a b)). Qed.
+Print Assumptions C13_big_mont_mul_hom.
+
+Theorem C13_big_field_ops_hom : forall a b,
+  BigZ.to_Z (vmod_add BigOps BigZ.ltb KpB a b) = vmod_add ZOps Z.ltb KpZ (BigZ.to_Z a) (BigZ.to_Z b) /\
+  BigZ.to_Z (vmod_sub BigOps BigZ.ltb KpB a b) = vmod_sub ZOps Z.ltb KpZ (BigZ.to_Z a) (BigZ.to_Z b) /\
+  BigZ.to_Z (vmod_neg BigOps BigZ.ltb KpB a) = vmod_neg ZOps Z.ltb KpZ (BigZ.to_Z a) /\
+  BigZ.to_Z (vmod_dbl BigOps BigZ.ltb KpB a) = vmod_dbl ZOps Z.ltb KpZ (BigZ.to_Z a) /\
+  BigZ.to_Z (vmod_tri BigOps BigZ.ltb KpB a) = vmod_tri ZOps Z.ltb KpZ (BigZ.to_Z a) /\
+  BigZ.to_Z (vmod_haf BigOps KpB a) = vmod_haf ZOps KpZ (BigZ.to_Z a) /\
+  BigZ.to_Z (vto_mont BigOps BigZ.ltb KpB a) = vto_mont ZOps Z.ltb KpZ (BigZ.to_Z a) /\
+  BigZ.to_Z (vfrom_mont BigOps BigZ.ltb KpB a) = vfrom_mont ZOps Z.ltb KpZ (BigZ.to_Z a) /\
+  BigZ.to_Z (vmodp_mont_inv BigOps BigZ.ltb KpB a) = vmodp_mont_inv ZOps Z.ltb KpZ (BigZ.to_Z a) /\
+  BigZ.to_Z (vmodn_mont_inv BigOps BigZ.ltb KnB a) = vmodn_mont_inv ZOps Z.ltb KnZ (BigZ.to_Z a) /\
+  (forall e, BigZ.to_Z (vmont_exp BigOps BigZ.ltb KpB a e) = vmont_exp ZOps Z.ltb KpZ (BigZ.to_Z a) e).
+Proof.
+  exact (fun a b => conj (vmod_add_hom KpB KpZ KpB_hom a b) (conj (vmod_sub_hom KpB KpZ KpB_hom a b)
+    (conj (vmod_neg_hom KpB KpZ KpB_hom a) (conj (vmod_dbl_hom KpB KpZ KpB_hom a) (conj (vmod_tri_hom KpB KpZ KpB_hom a)
+    (conj (vmod_haf_hom KpB KpZ KpB_hom a) (conj (vto_mont_hom KpB KpZ KpB_hom a) (conj (vfrom_mont_hom KpB KpZ KpB_hom a)
+    (conj (vmodp_mont_inv_hom KpB KpZ KpB_hom a) (conj (vmodn_mont_inv_hom KnB KnZ KnB_hom a)
+    (vmont_exp_hom KpB KpZ KpB_hom a))))))))))).
+Qed.
+Print Assumptions C13_big_field_ops_hom.
+
+Theorem C13_big_point_ops_hom : forall P Q A,
+  jmap (point_dbl bigZ FpB P) = point_dbl Z FpZ (jmap P) /\
+  jmap (point_add bigZ FpB P Q) = point_add Z FpZ (jmap P) (jmap Q) /\
+  jmap (point_neg bigZ FpB P) = point_neg Z FpZ (jmap P) /\
+  jmap (point_add_affine bigZ FpB P A) = point_add_affine Z FpZ (jmap P) (amap A).
+Proof.
+  exact (fun P Q A => conj (point_dbl_hom P) (conj (point_add_hom P Q) (conj (point_neg_hom P) (point_add_affine_hom P A)))).
+Qed.
+Print Assumptions C13_big_point_ops_hom.
